@@ -241,6 +241,25 @@ func (c *Channel) JoinPresence(ctx context.Context, p stanza.Presence, opt ...Op
 	case <-ctx.Done():
 		return ctx.Err()
 	}
+	// If the join ends without the room's self-presence (it was refused, or the
+	// context ended) nobody takes our entry out of the queue again: remove it,
+	// or the next join of this channel could never be queued.
+	defer func() {
+		cancel()
+		c.client.managedM.Lock()
+		defer c.client.managedM.Unlock()
+		select {
+		case queued := <-c.join:
+			if queued.j != joinCtx.j {
+				// Ours has been taken already, this one belongs to a later call.
+				select {
+				case c.join <- queued:
+				default:
+				}
+			}
+		default:
+		}
+	}()
 	go func(errChan chan<- error) {
 		defer cancel()
 
